@@ -67,7 +67,7 @@ def make_cases(ctx, cid, en, flags):
 
 def gen_cases(ctx):
     g = enumgen.EnumGen(ctx.rng)
-    n = ctx.n(60, 1000)
+    n = ctx.n(90, 1000)
     out = [make_cases(ctx, "q%d" % j, en, list(fl)) for j, (en, fl) in enumerate(enumgen.load_corpus(PROP))]
     feats = ["kind:" + k for k in enumgen.KIND_NAMES] + ["prefixed", "unprefixed", "accidental-prefix", "multi-file", "placeholder", "carried"]
     for i in range(n):
